@@ -9,28 +9,32 @@ A queued frame is a `Src`: its stream id and the labels of the fragments it stil
 -/
 namespace RSocketModel.SendQueue
 
-structure Src where
+/-- generic in the type `β` of what identifies a fragment (labels in the driver, frames in the
+end-to-end composition of C01) -/
+structure Src (β : Type) where
   sid : Nat
-  frags : List Nat
-deriving Repr, DecidableEq
-
-abbrev Queue := List Src
-
-inductive Ev where
-  | enq (s : Src)        -- `send_frame`
-  | enqFront (s : Src)   -- `send_priority_frame` (SETUP)
-  | step                 -- one pass of `_get_next_frame_to_send`
+  frags : List β
 deriving Repr
+
+abbrev Queue (β : Type) := List (Src β)
+
+inductive Ev (β : Type) where
+  | enq (s : Src β)        -- `send_frame`
+  | enqFront (s : Src β)   -- `send_priority_frame` (SETUP)
+  | step                   -- one pass of `_get_next_frame_to_send`
+deriving Repr
+
+variable {β : Type}
 
 /-- `_cycle_stream_to_back_of_send_queue` -/
-def cycle (sid : Nat) (q : Queue) : Queue := q.filter (·.sid != sid) ++ q.filter (·.sid == sid)
+def cycle (sid : Nat) (q : Queue β) : Queue β := q.filter (·.sid != sid) ++ q.filter (·.sid == sid)
 
-structure State where
-  queue : Queue
-  wire : List (Nat × Nat)     -- (stream id, fragment label) in emission order
+structure State (β : Type) where
+  queue : Queue β
+  wire : List (Nat × β)     -- (stream id, fragment) in emission order
 deriving Repr
 
-def step (s : State) : State :=
+def step (s : State β) : State β :=
   match s.queue with
   | [] => s                                       -- sender waits in `peek`
   | h :: t =>
@@ -40,29 +44,29 @@ def step (s : State) : State :=
     | f :: g :: rest =>
       { queue := cycle h.sid ({ h with frags := g :: rest } :: t), wire := s.wire ++ [(h.sid, f)] }
 
-def apply (s : State) : Ev → State
+def apply (s : State β) : Ev β → State β
   | .enq src => { s with queue := s.queue ++ [src] }
   | .enqFront src => { s with queue := src :: s.queue }
   | .step => step s
 
-def run (s : State) (evs : List Ev) : State := evs.foldl apply s
+def run (s : State β) (evs : List (Ev β)) : State β := evs.foldl apply s
 
-def init : State := { queue := [], wire := [] }
+def init : State β := { queue := [], wire := [] }
 
 /-- fragments still to be emitted for stream `sid`, in queue order -/
-def pending (sid : Nat) (q : Queue) : List Nat := (q.filter (·.sid == sid)).flatMap (·.frags)
+def pending (sid : Nat) (q : Queue β) : List β := (q.filter (·.sid == sid)).flatMap (·.frags)
 
 /-- what has been emitted for stream `sid` -/
-def wireOf (sid : Nat) (w : List (Nat × Nat)) : List Nat := (w.filter (·.1 == sid)).map (·.2)
+def wireOf (sid : Nat) (w : List (Nat × β)) : List β := (w.filter (·.1 == sid)).map (·.2)
 
 /-- everything ever queued for stream `sid`, in queueing order (priority frames are only legal
 for a stream with nothing queued, see `Legal`) -/
-def queuedFor (sid : Nat) : List Ev → List Nat
+def queuedFor (sid : Nat) : List (Ev β) → List β
   | [] => []
   | .enq src :: es => (if src.sid == sid then src.frags else []) ++ queuedFor sid es
   | .enqFront src :: es => (if src.sid == sid then src.frags else []) ++ queuedFor sid es
   | .step :: es => queuedFor sid es
 
-def total (q : Queue) : Nat := (q.map (·.frags.length)).sum
+def total (q : Queue β) : Nat := (q.map (·.frags.length)).sum
 
 end RSocketModel.SendQueue
